@@ -65,10 +65,23 @@ func irType(k ref.FKind) *types.FloatType {
 // literalRoundTrip parses lit with the library, prints it and compares the bit
 // patterns under the reference reading. It returns a description of the failure ("" if none)
 // and the printed literal.
+var otherKindReads int
+
 func literalRoundTrip(k ref.FKind, lit string) (bad string, printed string) {
 	want, ok, why := ref.ReadLiteral(k, lit)
 	if !ok {
 		return "", "" // not a valid literal for the type: outside the domain
+	}
+	// the same spelling is read at the other kinds first: most of these reads fail (a decimal literal of
+	// x86_fp80, fp128 or ppc_fp128, a prefixed hexadecimal literal of another kind) or round differently, and
+	// none of them may have anything to do with the read that follows
+	otherKindReads++
+	if otherKindReads%2 == 0 {
+		for _, o := range ref.FKinds {
+			if o.Name != k.Name {
+				lx.Guard(func() { constant.NewFloatFromString(irType(o), lit) })
+			}
+		}
 	}
 	var c *constant.Float
 	var err error
